@@ -1,6 +1,7 @@
 import Mathlib.Data.Matrix.Mul
 import Mathlib.Data.Fintype.BigOperators
 import Mathlib.LinearAlgebra.Matrix.Block
+import Mathlib.Analysis.Real.Sqrt
 import FastorModel.Proofs.QRInv
 import FastorModel.Proofs.QRPivot
 import FastorModel.Proofs.QRFamily
@@ -127,6 +128,37 @@ theorem detQR_sq (sqrt : K → K) (n : Nat) (A Qin : Mat K) (hs : SqrtExact sqrt
           * (detQR sqrt n A Qin * detQR sqrt n A Qin) := by rw [hQ, one_mul]
     _ = _ := by ring
 
+
+
+/-! ### over the reals with the real square root -/
+
+/-- over `ℝ` with `Real.sqrt` the hypothesis `SqrtExact` says exactly that no working column vanishes when it is
+    normalised (⇔ full column rank): a sum of squares is non-negative, so its real root is an exact root -/
+theorem sqrtExact_real (M N : Nat) (A0 Qin : Mat ℝ)
+    (hpos : ∀ i, i < N → normArg Real.sqrt M N A0 Qin i ≠ 0) : SqrtExact Real.sqrt M N A0 Qin := by
+  intro i hi
+  have h0 : 0 ≤ normArg Real.sqrt M N A0 Qin i := by
+    unfold normArg
+    rw [colNorm2_eq]
+    exact sum_nonneg (fun k _ => mul_self_nonneg _)
+  exact ⟨Real.mul_self_sqrt h0, (Real.sqrt_ne_zero h0).2 (hpos i hi)⟩
+
+/-- **C13 for real matrices**: with the real square root, if no working column vanishes, then `R` is upper triangular,
+    `Q * R = A`, `Qᵀ * Q = 1` and `det_qr = ∏ R_ii` — for every `n`. -/
+theorem qr_correct_real (n : Nat) (A Qin : Mat ℝ)
+    (hpos : ∀ i, i < n → normArg Real.sqrt n n A Qin i ≠ 0) :
+    (∀ i j, j < i → (qr Real.sqrt n A Qin).R i j = 0)
+    ∧ toMatrix n (qr Real.sqrt n A Qin).Q * toMatrix n (qr Real.sqrt n A Qin).R = toMatrix n A
+    ∧ (toMatrix n (qr Real.sqrt n A Qin).Q).transpose * toMatrix n (qr Real.sqrt n A Qin).Q = 1
+    ∧ detQR Real.sqrt n A Qin = ∏ i : Fin n, (qr Real.sqrt n A Qin).R i i :=
+  qr_correct Real.sqrt n A Qin (sqrtExact_real n n A Qin hpos)
+
+/-- non-vacuity: the 1×1 real matrix `[2]` -/
+example : ∀ i, i < 1 → normArg Real.sqrt 1 1 (Mat.ofFn (fun _ _ => (2 : ℝ))) (Mat.ofFn (fun _ _ => 0)) i ≠ 0 := by
+  intro i hi
+  have : i = 0 := by omega
+  subst this
+  norm_num [normArg, stateAt, colNorm2, loop, List.range', initSt, Mat.ofFn]
 
 /-! ### pivoted strategies (`QRCompType::MGSRPiv`)
 
